@@ -318,7 +318,7 @@ func runC10(c *Ctx) {
 				if ifi, ok := dd.Instrs[len(dd.Instrs)-1].(*ssa.If); ok {
 					if bo, ok := ifi.Cond.(*ssa.BinOp); ok && (bo.Op == token.EQL || bo.Op == token.NEQ) && bo.X == arg {
 						if cst, ok := bo.Y.(*ssa.Const); ok && cst.Value != nil && cst.Value.ExactString() == `""` {
-							onFalse := dd.Succs[1] == cur || (dd.Succs[1].Dominates(cur) && !dd.Succs[0].Dominates(cur))
+							onFalse := onEdge(dd, 1, cur)
 							if (bo.Op == token.EQL && onFalse) || (bo.Op == token.NEQ && !onFalse) {
 								skipped = true
 							}
